@@ -28,8 +28,22 @@ def to_json(x, classes, depth=0):
                 name = f"_{cname.lstrip('_')}{f}"
             if hasattr(x, name):
                 out[f] = to_json(getattr(x, name), classes, depth + 1)
+        # attributes the sidecar does not declare (e.g. state added by a later change) travel along unchanged,
+        # so that the rebuilt object is a faithful copy
+        try:
+            extra = vars(x)
+        except TypeError:
+            extra = {}
+        for name, val in extra.items():
+            plain = name
+            pref = f"_{cname.lstrip('_')}__"
+            if name.startswith(pref):
+                plain = "__" + name[len(pref):]
+            if plain not in out:
+                out[plain] = to_json(val, classes, depth + 1)
         return out
-    return None
+    # an object the contracts treat as an opaque reference: identified by name, rebuilt as one object per name
+    return {"$opaque": getattr(x, "name", None) or f"{cname}@{id(x)}"}
 
 
 def _packet(rng, seq, ts):
@@ -88,4 +102,63 @@ def NackGenerator(rng, inst):
     return g
 
 
-BUILDERS = {"NackGenerator": NackGenerator, "JitterBuffer": JitterBuffer, "RtpPacket": RtpPacket}
+class _Endpoint:
+    """stand-in for an RTCRtpReceiver / RTCRtpSender: the router only stores and compares references"""
+    def __init__(self, name):
+        self.name = name
+
+    def __repr__(self):
+        return f"<{self.name}>"
+
+
+def RtpRouter(rng, inst):
+    from aiortc.rtcdtlstransport import RtpRouter as RR
+    from aiortc.rtp import RtpPacket as RP
+    r = RR()
+    recvs = [_Endpoint(f"recv{i}") for i in range(3)]
+    sends = [_Endpoint(f"send{i}") for i in range(3)]
+    ssrcs = [0, 1, 2, 1234, (1 << 32) - 1]
+    pts = [0, 96, 97, 111]
+    for _ in range(rng.choice([0, 1, 2, 3, 5, 8])):
+        op = rng.random()
+        if op < 0.35:
+            r.register_receiver(rng.choice(recvs), rng.sample(ssrcs, rng.choice([0, 1, 2])), rng.sample(pts, rng.choice([0, 1, 2])),
+                                mid=rng.choice([None, "0", "1"]))
+        elif op < 0.5:
+            r.register_sender(rng.choice(sends), rng.choice(ssrcs))
+        elif op < 0.65:
+            r.unregister_receiver(rng.choice(recvs))
+        elif op < 0.75:
+            r.unregister_sender(rng.choice(sends))
+        elif op < 0.88:
+            r.route_rtp(RP(payload_type=rng.choice(pts), ssrc=rng.choice(ssrcs)))
+        else:
+            r.route_rtcp(_rtcp(rng, ssrcs))
+    return r
+
+
+def _rtcp(rng, ssrcs):
+    from aiortc import rtp
+    k = rng.choice(["sr", "rr", "bye", "nack", "pli", "remb", "remb"])
+    info = lambda: rtp.RtcpReceiverInfo(ssrc=rng.choice(ssrcs), fraction_lost=0, packets_lost=0, highest_sequence=0,  # noqa: E731
+                                        jitter=0, lsr=0, dlsr=0)
+    if k == "sr":
+        return rtp.RtcpSrPacket(ssrc=rng.choice(ssrcs), sender_info=rtp.RtcpSenderInfo(0, 0, 0, 0),
+                                reports=[info() for _ in range(rng.choice([0, 1, 2]))])
+    if k == "rr":
+        return rtp.RtcpRrPacket(ssrc=rng.choice(ssrcs), reports=[info() for _ in range(rng.choice([0, 1, 2]))])
+    if k == "bye":
+        return rtp.RtcpByePacket(sources=rng.sample(ssrcs, rng.choice([0, 1, 2])))
+    if k == "nack":
+        return rtp.RtcpRtpfbPacket(fmt=1, ssrc=0, media_ssrc=rng.choice(ssrcs), lost=[1])
+    if k == "pli":
+        return rtp.RtcpPsfbPacket(fmt=1, ssrc=0, media_ssrc=rng.choice(ssrcs))
+    return rtp.RtcpPsfbPacket(fmt=15, ssrc=0, media_ssrc=rng.choice([0, 0] + ssrcs),
+                              fci=rtp.pack_remb_fci(rng.choice([0, 1000, 1 << 20]), rng.sample(ssrcs, rng.choice([0, 1, 2, 3]))))
+
+
+def AnyRtcp(rng, inst):
+    return _rtcp(rng, [0, 1, 2, 1234, (1 << 32) - 1])
+
+
+BUILDERS = {"RtpRouter": RtpRouter, "NackGenerator": NackGenerator, "JitterBuffer": JitterBuffer, "RtpPacket": RtpPacket}
